@@ -326,7 +326,7 @@ def agg_case(seed):
   rnd = random.Random(seed ^ 0x5a5a)
   kinds = ['pred', 'pred', 'multibody', 'distinct', 'expr', 'expr', 'two_combines',
            'nested', 'neg', 'neg_conj', 'impl', 'argbest', 'nullable', 'expr_head',
-           'consumer', 'combine_chain', 'combine_chain', 'nested_siblings', 'literal_keys_empty']
+           'consumer', 'combine_chain', 'combine_chain', 'nested_siblings', 'literal_keys_empty', 'inj_combine_twice']
   kind = kinds[seed % len(kinds)]      # every kind appears in every 19 consecutive seeds
   x, y, z, u, v, w = [Var(n) for n in 'xyzuvw']
   rules = []
@@ -475,6 +475,20 @@ def agg_case(seed):
       inner = [inner[0], inner[2], inner[1]]
     outer = AggE(oo, Bin('+', z, u) if rnd.random() < 0.5 else z, Conj(inner), 'brace')
     rules.append(Rule('P', [x, v], body=Conj([A('G', x), Cmp('==', v, outer)])))
+  elif kind == 'inj_combine_twice':
+    # an injectible predicate whose body is an aggregating expression with a local variable, injected
+    # twice into one rule (directly nested, or through another injected rule); the value of one
+    # instance is the argument of the other
+    op = rnd.choice(['Min', 'Max', 'Sum'])
+    rules.append(Rule('Succ', [x], value=AggE(op, y, Conj([A('E', x, y)]), rnd.choice(['brace', 'combine']))))
+    macros = ['Succ']
+    if rnd.random() < 0.5:
+      rules.append(Rule('P', [x, Call('Succ', [Call('Succ', [x], [])], [])], body=A('G', x)))
+    else:
+      rules.append(Rule('Hop', [x, Call('Succ', [x], [])], body=A('G', x)))
+      rules.append(Rule('P', [x, Call('Succ', [y], [])], body=A('Hop', x, y)))
+    prog = Program(rules, ext=EXT)
+    return Case(prog, 'agg', macros=macros, K=2, notes=kind, check=['P'])
   elif kind == 'literal_keys_empty':
     # every key of an aggregating predicate is a literal and the body may have no solution:
     # a distinct predicate with keys has no row then (and its readers see none)
@@ -562,8 +576,8 @@ REC_TEMPLATES = ['tc_linear', 'tc_left', 'tc_nonlinear', 'tc_disj', 'same_gen', 
 
 def rec_case(seed, deep=False):
   rnd = random.Random(seed ^ 0x7ec)
-  tmpl = REC_TEMPLATES[seed % len(REC_TEMPLATES)] if not deep else rnd.choice(
-      ['counter', 'tc_linear', 'reach_from', 'two_cycle_flat', 'counter_distinct'])
+  tmpl = REC_TEMPLATES[seed % len(REC_TEMPLATES)] if not deep else (
+      ['counter', 'tc_linear', 'reach_from', 'two_cycle_flat', 'counter_distinct', 'ring7', 'ring7', 'reach_from'][seed % 8])
   x, y, z, p, q, n, d = [Var(v) for v in ['x', 'y', 'z', 'p', 'q', 'n', 'd']]
   depth = rnd.choice([1, 2, 3, 2, 3, None]) if not deep else rnd.choice([21, 24, 22])
   rules = []
@@ -670,6 +684,15 @@ def rec_case(seed, deep=False):
     K = 2
     if depth is None:
       depth = rnd.choice([1, 2, 3])
+  elif tmpl == 'ring7':
+    # a ring of seven predicates with one distant entry point: facts travel round the ring, one
+    # predicate per application (iterative plan: the ignition must be long enough for the ring)
+    main = 'P0'
+    rules = [Rule('P0', [x], distinct=True, body=A('G', x)),
+             Rule('P0', [y], distinct=True, body=Conj([A('P6', x), A('E', x, y)]))]
+    for i in range(1, 7):
+      rules.append(Rule('P%d' % i, [x], distinct=True, body=A('P%d' % (i - 1), x)))
+    K = 2
   elif tmpl == 'reach_from':
     main = 'R'
     rules = [Rule('R', [x], distinct=True, body=A('G', x)),
